@@ -46,11 +46,13 @@ Section C10.
          :: skipn (List.length h1) (run ty ty_eqb conv [] (h1 ++ h2)))%list.
   Proof. exact (run_remove ty ty_eqb ty_eqb_eq conv). Qed.
 
-  (* concurrent mixes: whatever the interleaving of the goroutines' atomic requests, each
-     request answers as on a fresh Config (partial: atomicity of Compute is assumed) *)
+  (* concurrent mixes: ts = the request lists of the goroutines, h = any interleaving of them
+     (each request one atomic step — the assumption about xsync Compute that makes this clause
+     partial); every goroutine observes, for its own list, the outcomes of a fresh Config *)
   Theorem C10_concurrent_partial : forall ts h,
-    Merge ty ts h ->
-    run ty ty_eqb conv [] (map fst h) = map (fun p => fresh ty ty_eqb conv (fst p)) h.
+    Merge ty ts h -> forall i,
+    observed_by ty i h (run ty ty_eqb conv [] (map fst h))
+    = map (fresh ty ty_eqb conv) (nth i ts []).
   Proof. exact (concurrent_fresh ty ty_eqb ty_eqb_eq conv). Qed.
 End C10.
 
@@ -63,6 +65,17 @@ Example C10_example :
        GetOrDefault "zz" Tstring (V "d"); Get "n" Tany]
   = [OVal (V "1"); OVal (V "2"); OVal (V "1"); OMustPanic; OVal (V "d"); OVal VNil].
 Proof. split; [exact gty_eqb_eq| vm_compute; reflexivity]. Qed.
+
+(* two goroutines, one schedule *)
+Example C10_example_merge :
+  Merge gty [[Get "a" Tuint8; Get "n" Tany]; [Get "au" Tint8]]
+            [(Get "a" Tuint8, 0); (Get "au" Tint8, 1); (Get "n" Tany, 0)].
+Proof.
+  eapply Merge_step with (i := 0); [reflexivity|]. cbn.
+  eapply Merge_step with (i := 1); [reflexivity|]. cbn.
+  eapply Merge_step with (i := 0); [reflexivity|]. cbn.
+  apply Merge_done. repeat constructor.
+Qed.
 
 (* the pinned code (before fixes C10-typed-cache-key, C10-nil-interface) — kept as a record *)
 Theorem C10_orig_refuted_collision :
